@@ -411,6 +411,20 @@ def pkgReconcileUnfixed (env : Env) (pname : String) : P Res := reconcileWith tr
 /-- an environment step as a one-call program, so that histories are lists of programs -/
 def envStep (a : EnvAct) : P Res := .call (.env a) fun _ => .ret .gone
 
+/-- one step of a history: a reconcile against some registry state, or an environment step
+(package edit, revision-controller finalizer handling) -/
+inductive Step where
+  | reconcile (env : Env)
+  | envAct (a : EnvAct)
+
+def stepProg (pname : String) : Step → P Res
+  | .reconcile env => pkgReconcile env pname
+  | .envAct a => envStep a
+
+/-- a history as a list of (fault plan, program) pairs for `reachHistory` -/
+def historyProgs (pname : String) (h : List (Plan × Step)) : List (Plan × P Res) :=
+  h.map fun x => (x.1, stepProg pname x.2)
+
 /-! ### predicates of the property -/
 
 def labelled (pname : String) (r : Rev) : Bool := r.parent = some pname
